@@ -50,4 +50,175 @@ theorem decodeMessage_v1_steps {ext : Ext} {recSet : Bytes → Gen} {data : Byte
   rw [ht]; simp only; rw [h2]; simp only; rw [h3]; simp only
   exact decodeCodec_plain ext recSet att value _ _ hcodec
 
+/-! ## the layout of the grammar's message -/
+
+theorem msgBody_enc (m : Spec.Msg) :
+    Spec.msgBody.enc m = ofIntBE 1 m.magic ++ (Spec.msgRest m.magic).enc (m.attributes, m.timestamp, m.key, m.value) := rfl
+
+theorem msgBody_valid (m : Spec.Msg) :
+    Spec.msgBody.valid m = (true && (int8.valid m.magic && (Spec.msgRest m.magic).valid (m.attributes, m.timestamp, m.key, m.value))) := rfl
+
+theorem msgRest0_enc (q : Nat × Option Int × Option Bytes × Option Bytes) :
+    (Spec.msgRest 0).enc q = ofNatBE 1 q.1 ++ (nullableBytes.enc q.2.2.1 ++ nullableBytes.enc q.2.2.2) := rfl
+
+theorem msgRest0_valid (q : Nat × Option Int × Option Bytes × Option Bytes) :
+    (Spec.msgRest 0).valid q = (q.2.1.isNone && (uint8.valid q.1 && (nullableBytes.valid q.2.2.1 && nullableBytes.valid q.2.2.2))) := rfl
+
+theorem msgRest1_enc (q : Nat × Option Int × Option Bytes × Option Bytes) :
+    (Spec.msgRest 1).enc q = ofNatBE 1 q.1 ++ (ofIntBE 8 (match q.2.1 with | some t => t | none => 0) ++
+      (nullableBytes.enc q.2.2.1 ++ nullableBytes.enc q.2.2.2)) := rfl
+
+theorem msgRest1_valid (q : Nat × Option Int × Option Bytes × Option Bytes) :
+    (Spec.msgRest 1).valid q = (q.2.1.isSome && (uint8.valid q.1 && (int64.valid (match q.2.1 with | some t => t | none => 0) &&
+      (nullableBytes.valid q.2.2.1 && nullableBytes.valid q.2.2.2)))) := rfl
+
+theorem msgRest_other_valid (magic : Int) (h0 : magic ≠ 0) (h1 : magic ≠ 1) (q : Nat × Option Int × Option Bytes × Option Bytes) :
+    (Spec.msgRest magic).valid q = false := by
+  unfold Spec.msgRest
+  rw [if_neg h0, if_neg h1]
+  rfl
+
+theorem message_enc (crc : Bytes → Nat) (m : Spec.Msg) :
+    (Spec.message crc).enc m = ofNatBE 4 (crc (Spec.msgBody.enc m) % 256 ^ 4) ++ Spec.msgBody.enc m := rfl
+
+theorem message_valid (crc : Bytes → Nat) (m : Spec.Msg) : (Spec.message crc).valid m = Spec.msgBody.valid m := rfl
+
+/-! ## reading packed groups at a cursor (cursor kept as `↑(… packedBody …).length`) -/
+
+theorem relativeUnpack_at0 (cs : List Char) (vs : List Int) {data rest : Bytes} (h : fieldsOk cs vs)
+    (hd : data = packedBody cs vs ++ rest) :
+    relativeUnpack ('>' :: cs) data 0 = .ok (vs, ((packedBody cs vs).length : Int)) := by
+  have := relativeUnpack_packed cs vs [] rest h
+  rw [hd]
+  simpa using this
+
+theorem relativeUnpack_at (cs : List Char) (vs : List Int) {data pre rest : Bytes} (h : fieldsOk cs vs)
+    (hd : data = pre ++ packedBody cs vs ++ rest) :
+    relativeUnpack ('>' :: cs) data pre.length = .ok (vs, ((pre ++ packedBody cs vs).length : Int)) := by
+  rw [hd, relativeUnpack_packed cs vs pre rest h, natCast_add_length pre _]
+
+theorem uint8_lt {n : Nat} (h : uint8.valid n = true) : n < 256 := by
+  have : n < 256 ^ 1 := of_decide_eq_true h
+  simpa using this
+
+theorem ok_B_nat {n : Nat} (h : n < 256) :
+    (match fieldSpec 'B' with | some (w, s) => fieldInRange w s (n : Int) = true | none => False) := by
+  simp only [fieldSpec]
+  rw [fieldInRange_unsigned]
+  constructor <;> omega
+
+theorem ok_I_nat {n : Nat} (h : n < 4294967296) :
+    (match fieldSpec 'I' with | some (w, s) => fieldInRange w s (n : Int) = true | none => False) := by
+  simp only [fieldSpec]
+  rw [fieldInRange_unsigned]
+  constructor <;> omega
+
+theorem crcMask_mod (n : Nat) : n &&& crcMask = n % 256 ^ 4 := by
+  have : crcMask = 2 ^ 32 - 1 := by decide
+  rw [this, Nat.and_two_pow_sub_one_eq_mod]
+
+/-- one plain message of the grammar, decoded by `_decode_message` -/
+theorem message_roundtrip (ext : Ext) (recSet : Bytes → Gen) (off : Int) (m : Spec.Msg)
+    (hv : (Spec.message ext.crc).valid m = true) (hplain : m.attributes % 4 = 0) :
+    decodeMessageWith ext recSet (some ((Spec.message ext.crc).enc m)) off = ([⟨off, toMessage m⟩], none) := by
+  obtain ⟨magic, attrs, ts, key, value⟩ := m
+  rw [message_valid, msgBody_valid] at hv
+  simp only [Bool.true_and] at hv
+  have hv := Bool.and_eq_true_iff.mp hv
+  simp only at hv hplain
+  have hcodec : ((attrs : Int)).toNat &&& attributeCodecMask = codecNone.toNat := by
+    have h3 : attributeCodecMask = 2 ^ 2 - 1 := by decide
+    have h4 : codecNone.toNat = 0 := by decide
+    rw [Int.toNat_natCast, h3, Nat.and_two_pow_sub_one_eq_mod, h4]
+    simpa using hplain
+  have hC : ext.crc (Spec.msgBody.enc ⟨magic, attrs, ts, key, value⟩) % 256 ^ 4 < 4294967296 := Nat.mod_lt _ (by decide)
+  rw [message_enc]
+  generalize hbody : Spec.msgBody.enc ⟨magic, attrs, ts, key, value⟩ = body at hC ⊢
+  rw [msgBody_enc] at hbody
+  simp only at hbody
+  by_cases h0 : magic = 0
+  · subst h0
+    rw [msgRest0_valid] at hv
+    rw [msgRest0_enc] at hbody
+    simp only at hv hbody
+    have hr := Bool.and_eq_true_iff.mp hv.2
+    have hr2 := Bool.and_eq_true_iff.mp hr.2
+    have hr3 := Bool.and_eq_true_iff.mp hr2.2
+    have hts : ts = none := by cases ts <;> simp_all
+    subst hts
+    have hA := uint8_lt hr2.1
+    generalize hC' : ext.crc body % 256 ^ 4 = C at hC
+    have hp : packedBody ['I', 'B', 'B'] [(C : Int), 0, (attrs : Int)] = ofNatBE 4 C ++ (ofIntBE 1 0 ++ ofNatBE 1 attrs) := by
+      simp only [packedBody, widthOf, fieldSpec, List.append_nil, ofIntBE_natCast 4 C hC, ofIntBE_natCast 1 attrs (by simpa using hA)]
+    have hok : fieldsOk ['I', 'B', 'B'] [(C : Int), 0, (attrs : Int)] :=
+      ⟨ok_I_nat hC, ok_B_nat (n := 0) (by decide), ok_B_nat hA, trivial⟩
+    have hdata : ofNatBE 4 C ++ body =
+        packedBody ['I', 'B', 'B'] [(C : Int), 0, (attrs : Int)] ++ (nullableBytes.enc key ++ nullableBytes.enc value) := by
+      rw [hp, ← hbody]; simp only [List.append_assoc]
+    generalize hdat : ofNatBE 4 C ++ body = data at hdata ⊢
+    have hslice : pySlice data crcFrom data.length = body := by
+      have := pySlice_mid (ofNatBE 4 C) body []
+      rw [List.append_nil, hdat, ofNatBE_length] at this
+      have hl : (data.length : Int) = ((4 : Nat) : Int) + (body.length : Int) := by
+        rw [← hdat]; simp [List.length_append, ofNatBE_length]
+      rw [hl]
+      exact this
+    have r := decodeMessage_v0_steps (ext := ext) (recSet := recSet) (off := off)
+      (relativeUnpack_at0 ['I', 'B', 'B'] [(C : Int), 0, (attrs : Int)] hok hdata)
+      (by rw [hslice, crcMask_mod, hC'])
+      (ris_nullable_at (data := data) (pre := packedBody ['I', 'B', 'B'] [(C : Int), 0, (attrs : Int)]) (rest := nullableBytes.enc value)
+        (by rw [hdata]; simp only [List.append_assoc]) hr3.1)
+      (ris_nullable_at (data := data) (pre := packedBody ['I', 'B', 'B'] [(C : Int), 0, (attrs : Int)] ++ nullableBytes.enc key) (rest := [])
+        (by rw [hdata]; simp only [List.append_assoc, List.append_nil]) hr3.2)
+      hcodec
+    rw [r]
+    rfl
+  · by_cases h1 : magic = 1
+    · subst h1
+      rw [msgRest1_valid] at hv
+      rw [msgRest1_enc] at hbody
+      simp only at hv hbody
+      have hr := Bool.and_eq_true_iff.mp hv.2
+      have hr2 := Bool.and_eq_true_iff.mp hr.2
+      have hr3 := Bool.and_eq_true_iff.mp hr2.2
+      have hr4 := Bool.and_eq_true_iff.mp hr3.2
+      cases ts with
+      | none => simp at hr
+      | some t =>
+        simp only at hr3 hbody
+        have hA := uint8_lt hr2.1
+        generalize hC' : ext.crc body % 256 ^ 4 = C at hC
+        have hp : packedBody ['I', 'B', 'B'] [(C : Int), 1, (attrs : Int)] = ofNatBE 4 C ++ (ofIntBE 1 1 ++ ofNatBE 1 attrs) := by
+          simp only [packedBody, widthOf, fieldSpec, List.append_nil, ofIntBE_natCast 4 C hC, ofIntBE_natCast 1 attrs (by simpa using hA)]
+        have hq : packedBody ['q'] [t] = ofIntBE 8 t := by simp only [packedBody, widthOf, fieldSpec, List.append_nil]
+        have hok : fieldsOk ['I', 'B', 'B'] [(C : Int), 1, (attrs : Int)] :=
+          ⟨ok_I_nat hC, ok_B_nat (n := 1) (by decide), ok_B_nat hA, trivial⟩
+        have hdata : ofNatBE 4 C ++ body =
+            packedBody ['I', 'B', 'B'] [(C : Int), 1, (attrs : Int)] ++ (packedBody ['q'] [t] ++ (nullableBytes.enc key ++ nullableBytes.enc value)) := by
+          rw [hp, hq, ← hbody]; simp only [List.append_assoc]
+        generalize hdat : ofNatBE 4 C ++ body = data at hdata ⊢
+        have hslice : pySlice data crcFrom data.length = body := by
+          have := pySlice_mid (ofNatBE 4 C) body []
+          rw [List.append_nil, hdat, ofNatBE_length] at this
+          have hl : (data.length : Int) = ((4 : Nat) : Int) + (body.length : Int) := by
+            rw [← hdat]; simp [List.length_append, ofNatBE_length]
+          rw [hl]
+          exact this
+        have r := decodeMessage_v1_steps (ext := ext) (recSet := recSet) (off := off)
+          (relativeUnpack_at0 ['I', 'B', 'B'] [(C : Int), 1, (attrs : Int)] hok hdata)
+          (by rw [hslice, crcMask_mod, hC'])
+          (relativeUnpack_at ['q'] [t] (data := data) (pre := packedBody ['I', 'B', 'B'] [(C : Int), 1, (attrs : Int)])
+            (rest := nullableBytes.enc key ++ nullableBytes.enc value) ⟨ok_q (v64 hr3.1), trivial⟩
+            (by rw [hdata]; simp only [List.append_assoc]))
+          (ris_nullable_at (data := data) (pre := packedBody ['I', 'B', 'B'] [(C : Int), 1, (attrs : Int)] ++ packedBody ['q'] [t])
+            (rest := nullableBytes.enc value) (by rw [hdata]; simp only [List.append_assoc]) hr4.1)
+          (ris_nullable_at (data := data)
+            (pre := packedBody ['I', 'B', 'B'] [(C : Int), 1, (attrs : Int)] ++ packedBody ['q'] [t] ++ nullableBytes.enc key) (rest := [])
+            (by rw [hdata]; simp only [List.append_assoc, List.append_nil]) hr4.2)
+          hcodec
+        rw [r]
+        rfl
+    · rw [msgRest_other_valid magic h0 h1] at hv
+      simp at hv
+
 end Afkak.Wire
